@@ -253,7 +253,7 @@ theorem cleanupLoggers_closed (hc : Closed P) (s : BSt) (h : P s) : P (cleanupLo
     have h0 : P { s with hasInvalidLoggers := false } :=
       hc.frame s _ h (Frame.of_eq rfl rfl rfl rfl rfl rfl rfl rfl rfl rfl rfl rfl rfl (fun _ h => h))
     generalize ({ s with hasInvalidLoggers := false } : BSt) = s0 at h0 ⊢
-    generalize (List.mergeSort _ _ : List Nat) = order
+    generalize (insSorted _ _ : List Nat) = order
     -- the erase pass
     have h1 : ∀ (l : List Nat) (acc : BSt × List Nat), P acc.1 →
         P (l.foldl (fun (acc : BSt × List Nat) (i : Nat) =>
